@@ -33,6 +33,13 @@ def decorate(rng, prog):
                         groups.append(o["returns"])
                     if rng.random() < 0.1:
                         o["doc"] = [" o"]
+            # the built-in deprecated attribute with no reason, an empty one and real ones (members that no type reference can name, so no lint follows)
+            for gi, g in enumerate(groups):
+                if d["kind"] == "interface" and gi > 0:
+                    continue
+                for m in g:
+                    if rng.random() < 0.06:
+                        m["attrs"] = list(m["attrs"]) + [("deprecated", rng.choice([[], [""], [""], ["why"], ["ü \"q\""], [" "]]))]
             for g in groups:
                 # operation names must stay distinct across the whole program (an inherited operation may not be redeclared)
                 used = op_names if (d["kind"] == "interface" and g is d["ops"]) else {m["name"] for m in g}
@@ -170,6 +177,7 @@ def make_cases(ck, n, styles, seed_rng, mutate=None):
         files, diags = split_dump(oo)
         c.raw = oo
         c.diags = diags
+        c.rawfiles = files
         c.dump = [norm_dump(x) for x in files] if files is not None else None
         c.model = []
         for f in c.files:
